@@ -759,7 +759,11 @@ let cmd_rdo (args : string list) : string =
       | 'U' -> RdoAUndo | 'R' -> RdoARedo
       | 'O' -> RdoAOther (ops (String.sub a 1 (String.length a - 1)))
       | _ -> RdoAStep (List.map ops (String.split_on_char '|' (String.sub a 1 (String.length a - 1))))) (String.split_on_char ';' prog) in
-    let rs = rdo_renders (rdo_state0 (nums scope)) (nums roots) acts in
+    (* the transcription of the repaired tracing loops (80f8fe9: Crdt/RedoFix.v); the theorems of RedoProofs.v are about rdo_renders,
+       which it is proved to equal wherever no element stands between a copy and its tombstone (RedoFixProofs.v) *)
+    let rs = rdo_renders_fixed (rdo_state0 (nums scope)) (nums roots) acts in
+    let rs_old = rdo_renders (rdo_state0 (nums scope)) (nums roots) acts in
+    if rs <> rs_old then "fixed-and-old-transcription-differ" else
     if List.length rs <> List.length acts then "fail after " ^ string_of_int (List.length rs) ^ " actions" else
     "ok " ^ String.concat ";" (List.map (fun per_root -> String.concat "|" (List.map (fun l -> String.concat "," (List.map hex_of_n l)) per_root)) rs)
   | _ -> "err badcmd"
